@@ -161,12 +161,25 @@ Section Propagation.
   Notation at_e := (at_e rej_e_j rej_s_j).
   Notation at_s := (at_s rej_e_j rej_s_j).
 
+  (* since f1d69d9 a last expression statement of a block is checked as the value of the block only *)
   Lemma block_notok R sp pre x post ctx : apres R ->
     (forall s, J s -> notok (r_stmt R x ctx s)) ->
+    (forall e sp', x = SStatementExpression e sp' -> forall s, J s -> notok (r_expr R e ctx s)) ->
     forall s, J s -> notok (expression_block G R sp (pre ++ x :: post) ctx s).
   Proof.
-    intros PR H s W. unfold expression_block. apply bind_notok_l.
-    apply (foldM_notok_j J HJ); [intros; prs| |assumption]. intros b s' W'. apply bind_notok_l, H, W'.
+    intros PR H He s W. unfold expression_block.
+    destruct (block_split_cases (pre ++ x :: post)) as [(ss & e & sp' & El & Hs)|Hs]; rewrite Hs; cbn [fst snd].
+    - (* the block ends with an expression statement: it is x, or x is before it *)
+      destruct post as [|p post] using rev_ind.
+      + change (pre ++ [x]) with (pre ++ [x]) in El. apply app_inj_tail in El. destruct El as [-> ->].
+        apply (bind_notok_rj J HJ); [|assumption|].
+        * apply pres_foldM. intros; prs.
+        * intros r s1 W1. apply bind_notok_l. now apply (He e sp').
+      + clear IHpost. rewrite app_comm_cons, app_assoc in El. apply app_inj_tail in El. destruct El as [<- _].
+        apply bind_notok_l. apply (foldM_notok_j J HJ); [intros; prs| |assumption].
+        intros b s' W'. apply bind_notok_l, H, W'.
+    - apply bind_notok_l.
+      apply (foldM_notok_j J HJ); [intros; prs| |assumption]. intros b s' W'. apply bind_notok_l, H, W'.
   Qed.
 
   Lemma call_args_notok R ctx x post (PR : apres R) (H : forall s, J s -> notok (r_expr R x ctx s)) :
@@ -184,6 +197,25 @@ Section Propagation.
   Ltac skip := apply (bind_notok_rj J HJ); [prs|assumption|]; intros ? ? ?.
   Ltac skip_pair := apply (bind_notok_rj J HJ); [prs|assumption|]; intros [? ?] ? ?.
   Ltac here := apply bind_notok_l.
+
+  Lemma notok_bind_total {A B} (m : M A) (k : A -> M B) s :
+    (forall a s', exists b, k a s' = Ok b) -> notok (bind m k s) -> notok (m s).
+  Proof.
+    intros T H [a s'] E. destruct (T a s') as [b Eb]. apply (H b). unfold bind. rewrite E. exact Eb.
+  Qed.
+
+  (* a hole statement that is an expression statement: its expression is rejected too *)
+  Lemma stmt_hole_expr f :
+    (forall C ctx s, J s -> at_e C ctx -> notok (r_expr (afix f) (plug_e C) ctx s)) ->
+    forall C ctx e sp', at_s C ctx -> plug_s C = SStatementExpression e sp' ->
+      forall s, J s -> notok (r_expr (afix f) e ctx s).
+  Proof.
+    intros IHe C ctx e sp' Hat E s W. destruct C; cbn [Ctx.plug_s] in E; try discriminate.
+    - cbn [Ctx.at_s] in Hat. specialize (Hat (S f) s W). rewrite E in Hat.
+      cbn [Tc.afix astep r_stmt] in Hat. unfold stmt_body in Hat.
+      eapply notok_bind_total; [|exact Hat]. intros [r v] s'. eexists. reflexivity.
+    - injection E as <- _. cbn [Ctx.at_s] in Hat. now apply IHe.
+  Qed.
 
   Lemma placement_j : forall f,
     (forall C ctx s, J s -> at_e C ctx -> notok (r_expr (afix f) (plug_e C) ctx s)) /\
@@ -232,21 +264,21 @@ Section Propagation.
         cbn [Ctx.plug_e Tc.afix astep r_expr]. unfold expr_body. here. here.
         apply (mapM_notok_j J HJ); [intros; prs| |assumption]. intros s1 W1. unfold if_branch.
         apply (bind_notok_rj J HJ); [prs|assumption|]; intros ? ? ?. here.
-        apply block_notok; [assumption| |assumption]. intros s2 W2. now apply IHs.
+        apply block_notok; [assumption| | |assumption]; [intros s2 W2; now apply IHs|intros e0 sp0 E0; eapply (stmt_hole_expr f IHe); eassumption].
       + (* XCaseM *)
         cbn [Ctx.plug_e Tc.afix astep r_expr]. unfold expr_body. here. here. now apply IHe.
       + (* XCaseB *)
         cbn [Ctx.plug_e Tc.afix astep r_expr]. unfold expr_body. here. skip_pair. skip. skip. here.
         apply (foldM_notok_j J HJ); [intros; prs| |assumption]. intros [[? ?] ?] s1 W1. unfold case_branch.
         do 3 (apply (bind_notok_rj J HJ); [prs|assumption|]; intros ? ? ?). here.
-        apply block_notok; [assumption| |assumption]. intros s2 W2. now apply IHs.
+        apply block_notok; [assumption| | |assumption]; [intros s2 W2; now apply IHs|intros e0 sp0 E0; eapply (stmt_hole_expr f IHe); eassumption].
       + (* XCaseF *)
         cbn [Ctx.plug_e Tc.afix astep r_expr]. unfold expr_body. here. skip_pair. skip. skip.
         apply (bind_notok_rj J HJ); [prs|assumption|]; intros [[? ?] ?] ? ?. here. here.
-        apply block_notok; [assumption| |assumption]. intros s2 W2. now apply IHs.
+        apply block_notok; [assumption| | |assumption]; [intros s2 W2; now apply IHs|intros e0 sp0 E0; eapply (stmt_hole_expr f IHe); eassumption].
       + (* XFun *)
         cbn [Ctx.plug_e Tc.afix astep r_expr]. unfold expr_body. here. skip_pair. here.
-        apply block_notok; [assumption| |assumption]. intros s2 W2. now apply IHs.
+        apply block_notok; [assumption| | |assumption]; [intros s2 W2; now apply IHs|intros e0 sp0 E0; eapply (stmt_hole_expr f IHe); eassumption].
       + (* XBlob *)
         cbn [Ctx.plug_e Tc.afix astep r_expr]. unfold expr_body. here. skip. skip. skip.
         destruct a1; auto with notok.
@@ -279,12 +311,12 @@ Section Propagation.
         cbn [Ctx.plug_s Tc.afix astep r_stmt]. unfold stmt_body. here. now apply IHe.
       + (* YLoopB *)
         cbn [Ctx.plug_s Tc.afix astep r_stmt]. unfold stmt_body. skip_pair. skip. skip. here.
-        apply block_notok; [assumption| |assumption]. intros s2 W2. now apply IHs.
+        apply block_notok; [assumption| | |assumption]; [intros s2 W2; now apply IHs|intros e0 sp0 E0; eapply (stmt_hole_expr f IHe); eassumption].
       + (* YRet *)
         cbn [Ctx.plug_s Tc.afix astep r_stmt]. unfold stmt_body. here. now apply IHe.
       + (* YBlock *)
         cbn [Ctx.plug_s Tc.afix astep r_stmt]. unfold stmt_body. here.
-        apply block_notok; [assumption| |assumption]. intros s2 W2. now apply IHs.
+        apply block_notok; [assumption| | |assumption]; [intros s2 W2; now apply IHs|intros e0 sp0 E0; eapply (stmt_hole_expr f IHe); eassumption].
       + (* YExpr *)
         cbn [Ctx.plug_s Tc.afix astep r_stmt]. unfold stmt_body. here. now apply IHe.
   Qed.
